@@ -132,7 +132,13 @@ func installLookupSummary(e *sym.Ctx) {
 	})
 }
 
-const commitPad = 70000
+// commitPad: number of further 32-bit checks that make the circuit large enough for gnark's commitment-based
+// checker to settle on 16-bit limbs (a variable: one lemma is repeated at a size where it does not)
+var commitPad = 70000
+
+// padRefusalOK: at this size a refusal at definition time is an acceptable outcome (the repository
+// refuses circuits for which gnark would not pick 16-bit limbs)
+var padRefusalOK bool
 
 // ---- slicing ------------------------------------------------------------------------------------
 
@@ -317,6 +323,10 @@ func rangeLemmas(r *Run, cfg rcConfig, items []rangeItem) {
 		msg := pm
 		if msg == "" {
 			msg = derr.Error()
+		}
+		if padRefusalOK {
+			r.Sample(map[string]any{"config": cfg.String(), "collected_checks": commitPad + len(items), "refused_at_definition": short(msg, 100)})
+			return
 		}
 		g := &gadgetReplay{Kind: "gadget", Gadget: items[0].gadget, N: replayN(items[0].gadget, 8), Cfg: cfg.replayCfg(), In: []string{"1"}, Expect: "rejected"}
 		if acc, rmsg := runGadgetReplay(g); !acc && strings.Contains(rmsg, "compile") {
@@ -558,6 +568,19 @@ func runC06(r *Run) {
 				{name: fmt.Sprintf("rangeN[%s,n=16,collected last]", cfg), bound: pow2(16), gadget: "RangeN", n: 16, compl: "direct", body: func(chip *gl.Chip, x gl.Variable) { chip.RangeCheckWithMaxBits(x, 16) }},
 			})
 			padFirst = false
+			// a mid-sized circuit (about 55000 collected checks): gnark's cost model does not pick 16-bit limbs
+			// there. The repository must either refuse to build (it does: "nbBits should be 16") or be exact -
+			// its emulation of gnark's choice must not say 16 where gnark uses narrower limbs
+			// (R1CS only: the symbolic commit API reaches gnark's cost model through the same fallback as a real
+			// R1CS builder; for SCS its choice is not the one a real SCS builder would make at this size)
+			if !strings.Contains(cfg.String(), "scs") {
+				commitPad, padRefusalOK = 55000, true
+				rangeLemmas(r, cfg, []rangeItem{
+					{name: fmt.Sprintf("rangeN[%s,n=32,mid-sized circuit]", cfg), bound: pow2(32), gadget: "RangeN", n: 32, body: func(chip *gl.Chip, x gl.Variable) { chip.RangeCheckWithMaxBits(x, 32) }},
+				})
+				r.Discharge() // replays of these obligations must run with this padding
+				commitPad, padRefusalOK = 70000, false
+			}
 			r.Discharge()
 		}
 	}
